@@ -53,6 +53,75 @@ pub fn canary_catch() { let _r = std::panic::catch_unwind(|| 1); }
 // R10.nounsafe
 pub fn canary_unsafe(p: *const u32) -> u32 { unsafe { *p } }
 // R3.narrow
+pub fn canary_chunked_decode<R: std::io::BufRead>(r: &mut R) -> std::io::Result<String> {
+    let mut s = String::new();
+    loop {
+        let n = { let b = r.fill_buf()?; if b.is_empty() { break } s.push_str(&String::from_utf8_lossy(b)); b.len() };
+        r.consume(n);
+    }
+    Ok(s)
+}
+pub fn canary_whole_decode<R: std::io::Read>(r: &mut R) -> std::io::Result<String> {
+    let mut v = Vec::new();
+    r.read_to_end(&mut v)?;
+    Ok(String::from_utf8_lossy(&v).into_owned())
+}
+
+pub fn canary_partial_resumed<W: Write>(w: &mut W, buf: &[u8]) -> std::io::Result<()> {
+    let n = w.write(buf)?;
+    w.write_all(&buf[n..])?;
+    Ok(())
+}
+pub fn canary_partial_misresumed<W: Write>(w: &mut W, buf: &[u8]) -> std::io::Result<()> {
+    let n = w.write(buf)?;
+    w.write_all(&buf[n + 1..])?;
+    Ok(())
+}
+pub fn canary_partial_unresumed<W: Write>(w: &mut W, buf: &[u8]) -> std::io::Result<()> {
+    let n = w.write(buf)?;
+    if n == 0 { return Err(std::io::Error::new(std::io::ErrorKind::WriteZero, "zero")); }
+    Ok(())
+}
+pub fn canary_vectored_resumed<W: Write>(w: &mut W, a: &[u8], b: &[u8]) -> std::io::Result<()> {
+    let n = w.write_vectored(&[std::io::IoSlice::new(a), std::io::IoSlice::new(b)])?;
+    if n <= a.len() {
+        w.write_all(&a[n..])?;
+        w.write_all(b)?;
+    } else {
+        w.write_all(&b[n - a.len()..])?;
+    }
+    Ok(())
+}
+pub fn canary_vectored_misresumed<W: Write>(w: &mut W, a: &[u8], b: &[u8]) -> std::io::Result<()> {
+    let n = w.write_vectored(&[std::io::IoSlice::new(a), std::io::IoSlice::new(b)])?;
+    if n <= a.len() {
+        w.write_all(&a[n..])?;
+        w.write_all(b)?;
+    } else {
+        w.write_all(&b[n.min(b.len())..])?;
+    }
+    Ok(())
+}
+pub fn canary_resume_loop<W: Write>(w: &mut W, mut buf: &[u8]) -> std::io::Result<()> {
+    while !buf.is_empty() {
+        match w.write(buf) {
+            Ok(0) => return Err(std::io::Error::new(std::io::ErrorKind::WriteZero, "zero")),
+            Ok(n) => buf = &buf[n..],
+            Err(ref e) if e.kind() == std::io::ErrorKind::Interrupted => {}
+            Err(e) => return Err(e),
+        }
+    }
+    Ok(())
+}
+pub fn canary_bad_loop<W: Write>(w: &mut W, mut buf: &[u8]) -> std::io::Result<()> {
+    while !buf.is_empty() {
+        let n = w.write(buf)?;
+        buf = &buf[n.max(1) - 1..];
+        if n > 3 { break }
+    }
+    Ok(())
+}
+
 pub fn canary_narrow(v: usize) -> u16 { v as u16 }
 pub fn canary_narrow_guarded(v: usize) -> u16 { assert!(v <= 65_535usize); v as u16 }
 
